@@ -1143,15 +1143,29 @@ def _unroll_literal_loop(fn, body_list):
   i = 0
   while i < len(body_list):
     st = body_list[i]
-    if isinstance(st, ast.For) and not st.orelse and isinstance(st.target, ast.Name) and isinstance(st.iter, (ast.Tuple, ast.List)) \
-        and 1 <= len(st.iter.elts) <= 4 and all(_simple(e) for e in st.iter.elts) and len(st.body) <= 3 \
-        and all(isinstance(b, (ast.Expr, ast.Assign, ast.AugAssign)) for b in st.body) \
-        and not any(_stores(b, st.target.id) for b in st.body) and fn is not None and not _used_after(fn, st, st.target.id):
+    tnames = [st.target] if isinstance(getattr(st, 'target', None), ast.Name) else \
+        (list(st.target.elts) if isinstance(getattr(st, 'target', None), ast.Tuple) and all(isinstance(x, ast.Name) for x in st.target.elts) else [])
+    def _item_ok(x):
+      return _simple(x) or (isinstance(x, ast.Lambda) and not x.args.args and not x.args.vararg and not x.args.kwarg and not x.args.kwonlyargs)
+    def _elt_ok(e):
+      if len(tnames) == 1 and isinstance(st.target, ast.Name):
+        return _item_ok(e)
+      return isinstance(e, (ast.Tuple, ast.List)) and len(e.elts) == len(tnames) and all(_item_ok(x) for x in e.elts)
+    def _body_ok(b):
+      if isinstance(b, (ast.Expr, ast.Assign, ast.AugAssign, ast.Raise)):
+        return True
+      return isinstance(b, ast.If) and not b.orelse and len(b.body) <= 2 and all(isinstance(x, (ast.Expr, ast.Assign, ast.Raise)) for x in b.body)
+    if isinstance(st, ast.For) and not st.orelse and tnames and isinstance(st.iter, (ast.Tuple, ast.List)) \
+        and 1 <= len(st.iter.elts) <= 4 and all(_elt_ok(e) for e in st.iter.elts) and len(st.body) <= 3 \
+        and all(_body_ok(b) for b in st.body) \
+        and not any(_stores(b, t_.id) for b in st.body for t_ in tnames) and fn is not None \
+        and not any(_used_after(fn, st, t_.id) for t_ in tnames):
       new = []
       for e in st.iter.elts:
-        sub = _Subst({st.target.id: e}, {})
+        mapping = {st.target.id: e} if isinstance(st.target, ast.Name) else {t_.id: x for t_, x in zip(tnames, e.elts)}
+        sub = _Subst(mapping, {})
         for b in st.body:
-          nb = sub.visit(copy.deepcopy(b))
+          nb = _ExprForms().visit(sub.visit(copy.deepcopy(b)))
           ast.copy_location(nb, st)
           ast.fix_missing_locations(nb)
           new.append(nb)
@@ -1623,6 +1637,11 @@ class _ExprForms(ast.NodeTransformer):
   def visit_Call(self, n):
     self.generic_visit(n)
     n = self._flatten_partial(n)
+    # (lambda: X)()  ->  X
+    if isinstance(n, ast.Call) and isinstance(n.func, ast.Lambda) and not n.args and not n.keywords and not n.func.args.args \
+        and not n.func.args.vararg and not n.func.args.kwarg and not n.func.args.kwonlyargs:
+      self.n += 1
+      return n.func.body
     # all([a, b, c]) -> bool(a and b and c);  any((a, b)) -> bool(a or b)      (a literal display of pure operands)
     if isinstance(n.func, ast.Name) and n.func.id in ('all', 'any') and len(n.args) == 1 and not n.keywords \
         and isinstance(n.args[0], (ast.List, ast.Tuple)) and len(n.args[0].elts) >= 2 \
@@ -2367,12 +2386,18 @@ def match_reference_shape(tree, modname, table=None):
 
 def post_canon(tree, modname):
   """Second stage, run after the local names were mapped back to the reference names."""
-  a = inline_temps(tree, modname)
-  a += match_reference_shape(tree, modname)
-  b = loop_forms(tree)
-  c = idioms(tree) if (a or b) else 0
+  a = b = 0
+  for _round in range(3):
+    a1 = inline_temps(tree, modname)
+    a1 += match_reference_shape(tree, modname)
+    b1 = loop_forms(tree)
+    b1 += idioms(tree) if (a1 or b1) else 0
+    a += a1
+    b += b1
+    if not (a1 or b1):
+      break
   ast.fix_missing_locations(tree)
-  return a, b + c
+  return a, b
 
 
 def normalize(tree, modname):
